@@ -40,6 +40,8 @@ def gen_obs(rng, tname, mode):
             return [rng.randint(0, 65535), rng.choice([1, 2, 4, 8])]
         return [rng.uniform(0, 1e3), rng.uniform(0.5, 1e4)]
     if tname == "MISC":
+        if rng.random() < 0.3:
+            return [{"__nd__": [rng.randint(0, 9), rng.randint(0, 9), rng.randint(0, 9)]}, None]      # an array-valued observation (same shape every time)
         return [rng.choice(["a", "b", 3, 4.5, "z%d" % rng.randint(0, 99)]), None]
     return [rng.randrange(CHOICE_NUMS[tname]), None]
 
@@ -51,18 +53,22 @@ def make_result(tname, accumulate, first=None, via_create=False):
             return Result.create("r", code, first[0], CHOICE_NUMS[tname], accumulate_values=accumulate)
         if tname == "RATIO":
             return Result.create("r", code, first[0], first[1], accumulate_values=accumulate)
-        return Result.create("r", code, first[0], accumulate_values=accumulate)
+        return Result.create("r", code, obs_val(first[0]), accumulate_values=accumulate)
     r = Result("r", code, accumulate_values=accumulate, choice_num=CHOICE_NUMS[tname] if is_choice(tname) else None)
     if first is not None:
         do_update(r, tname, first)
     return r
 
 
+def obs_val(v):
+    return np.array(v["__nd__"]) if isinstance(v, dict) and "__nd__" in v else v
+
+
 def do_update(r, tname, obs):
     if tname == "RATIO":
         r.update(obs[0], obs[1])
     else:
-        r.update(obs[0])
+        r.update(obs_val(obs[0]))
 
 
 def stats_of(r, tname):
@@ -72,6 +78,8 @@ def stats_of(r, tname):
         val = [int(x) for x in r._value]
     else:
         val = r._value
+        if isinstance(val, np.ndarray):
+            val = {"__nd__": val.tolist()}
     out = {"value": val, "total": r._total, "n": n}
     if n > 0 and tname != "MISC":
         out["result"] = r.get_result().tolist() if is_choice(tname) else r.get_result()
@@ -398,11 +406,11 @@ def _exec_set(plan, res, log, pid, mode):
                     if is_choice(nm):
                         s.add_result(Result.create(nm, TYPES[nm], o[0], CHOICE_NUMS[nm], accumulate_values=acc_))
                     elif acc_:
-                        s.add_result(Result.create(nm, TYPES[nm], o[0], o[1] if nm == "RATIO" else 0, accumulate_values=True))
+                        s.add_result(Result.create(nm, TYPES[nm], obs_val(o[0]), o[1] if nm == "RATIO" else 0, accumulate_values=True))
                     elif nm == "RATIO":
                         s.add_new_result(nm, TYPES[nm], o[0], o[1])
                     else:
-                        s.add_new_result(nm, TYPES[nm], o[0])
+                        s.add_new_result(nm, TYPES[nm], obs_val(o[0]))
                 sets[op["set"]] = s
                 model[op["set"]] = {nm: [[op["obs"][nm]]] for nm in names}
                 skipm[op["set"]] = None if sk is None else sk["v"]
